@@ -297,7 +297,9 @@ def write_molden(case, enc, rng: random.Random, digits=17):
     out = ["[Molden Format]\n", "[Title]\n", f" vendor-encoded test file ({case['vendor']})\n", "\n"]
     if tags_first:
         out.append(tagtxt)
-    out.append(f"[Atoms] {case['unit'] if rng.random() < 0.7 else case['unit'].upper()}\n")
+    # the unit word as programs spell it: plain, upper case, or in parentheses as in the Molden format description
+    u = case["unit"]
+    out.append(f"[Atoms] {rng.choice([u, u, u.upper(), '(' + u + ')', '(' + u.upper() + ')'])}\n")
     for i, (z, p) in enumerate(zip(case["zs"], case["coords"])):
         out.append(f"{SYMBOLS[z]:<3s}{i + 1:4d}{z:4d}  {p[0]!r}  {p[1]!r}  {p[2]!r}\n")
     out.append("[GTO]\n")
